@@ -81,7 +81,86 @@ fn script_case(em: &mut Emitter, mode: u8, ctx: Ctx, before: &[Node], content: &
     }, true);
 }
 
+/// 302: caller code that carries on after a failed read. Inside a SEQUENCE (definite, indefinite, or one
+/// inside the other) the closure reads `j` members, then makes a read of member j that FAILS in one of several
+/// ways (before, inside or after the member's content), swallows the error, optionally reads on, and returns
+/// success. Property: code that returns success without having consumed the whole content makes the enclosing
+/// read fail; if the enclosing read does succeed, the values that follow are the ones that follow in the input.
+fn lenient_case(em: &mut Emitter, mode: u8, outer_indef: bool, wrap2: u8, members: &[Node], j: usize, how: u8, more: usize) {
+    use bcder::decode::{Constructed, IntoSource, Content};
+    use bcder::Tag;
+    let body = encode_forest(members, mode, &mut None);
+    let seq = |indef: bool, inner: &[u8]| -> Vec<u8> { let mut v = vec![0x30u8]; if indef { v.push(0x80); v.extend_from_slice(inner); v.extend_from_slice(&[0, 0]); } else { v.extend(ref_len_octets(inner.len())); v.extend_from_slice(inner); } v };
+    let mut data = seq(outer_indef, &body);
+    // the sibling that follows the SEQUENCE, and an optional second enclosing SEQUENCE around both
+    let sib: [u8; 4] = [0xdf, 0x7f, 0x01, 0x5a];
+    data.extend_from_slice(&sib);
+    let data = match wrap2 { 0 => data, 1 => seq(false, &data), _ => seq(true, &data) };
+    let (cls, num, cons) = match &members[j] { Node::Prim { cls, num, .. } => (*cls, *num, false), Node::Cons { cls, num, .. } => (*cls, *num, true) };
+    em.case(302, &[num_arg(mode), num_arg(outer_indef as u8), num_arg(wrap2), bytes_arg(&data), num_arg(j), num_arg(how), num_arg(more)], || {
+        fn inner<S: bcder::decode::Source>(c: &mut Constructed<S>, j: usize, tag: Tag, cons: bool, how: u8, more: usize) -> Result<(bool, bool), bcder::decode::DecodeError<S::Error>> {
+            // (the SEQUENCE was delivered, what follows is exactly the sibling and then the end)
+            let got = c.take_opt_sequence(|seq| {
+                for _ in 0..j { seq.take_value(|_, ct| skip_content(ct))?; }
+                // the failing read of member j; its error is swallowed
+                let failed: Result<(), _> = match (how, cons) {
+                    (0, _) => seq.take_value_if(tag, |ct| { let e = content_err(ct); Err(e) }),                       // fails before touching the content
+                    (1, _) => seq.take_value_if(tag, |ct| { skip_content(ct)?; let e = content_err(ct); Err(e) }),    // fails after consuming all of it
+                    (2, false) => seq.take_primitive_if(tag, |p| { use bcder::decode::Source; let _ = p.take_opt_u8()?; Err(p.content_err("lenient")) }),  // after one octet
+                    (2, true) => seq.take_constructed_if(tag, |k| { k.skip_opt(|_, _, _| Ok(()))?; Err(k.content_err("lenient")) }),      // after one member
+                    (3, false) => seq.take_primitive_if(tag, |p| p.to_null()),                                         // a typed reader that may reject the content
+                    (3, true) => seq.take_constructed_if(tag, |k| k.take_null()),
+                    (4, _) => seq.take_value_if(tag, |ct| { skip_content(ct)?; Ok(()) }).and_then(|_| Err(seq.content_err("lenient"))),  // succeeds; the caller fails afterwards
+                    _ => seq.take_value_if(tag, |_| Ok(())),                                                             // returns success without consuming
+                };
+                let _ = failed;
+                for _ in 0..more { if seq.take_opt_value(|_, ct| skip_content(ct)).is_err() { break } }
+                Ok(())
+            });
+            match got {
+                Err(_) | Ok(None) => Ok((false, false)),
+                Ok(Some(())) => {
+                    let sib_ok = c.take_primitive_if(Tag::private(127), |p| { let b = p.take_all()?; Ok(b.as_ref() == [0x5a]) }).unwrap_or(false);
+                    Ok((true, sib_ok))
+                }
+            }
+        }
+        fn skip_content<S: bcder::decode::Source>(ct: &mut Content<S>) -> Result<(), bcder::decode::DecodeError<S::Error>> {
+            match ct { Content::Primitive(p) => p.skip_all(), Content::Constructed(k) => k.skip_all() }
+        }
+        fn content_err<S: bcder::decode::Source>(ct: &mut Content<S>) -> bcder::decode::DecodeError<S::Error> {
+            match ct { Content::Primitive(p) => p.content_err("lenient"), Content::Constructed(k) => k.content_err("lenient") }
+        }
+        let tag = crate::c12::mk_tag(cls, num);
+        let r = catch(|| Constructed::decode(data.as_slice().into_source(), mode_of(mode), |c| {
+            let (delivered, sib_ok) = match wrap2 { 0 => inner(c, j, tag, cons, how, more)?, _ => c.take_sequence(|w| inner(w, j, tag, cons, how, more))? };
+            let end = c.take_opt_value(|_, ct| skip_content(ct)).map(|o| o.is_none()).unwrap_or(false);
+            Ok((delivered, sib_ok, end))
+        }));
+        let orc = match r {
+            None => Oracle::Fail("panic".into()),
+            Some(Err(_)) => Oracle::Pass,                          // the enclosing read (or an outer one) failed
+            Some(Ok((false, _, _))) => Oracle::Pass,
+            Some(Ok((true, true, true))) => Oracle::Pass,          // everything was consumed after all: what follows is what follows
+            // known finding D24: inside an INDEFINITE-length value a failed read leaves the position inside the failed
+            // member and nothing bounds what the following reads take for members; an end-of-contents met that way
+            // closes the enclosing value early (inside a definite-length value the limit keeps the books: fix D23)
+            Some(Ok((true, _, _))) if outer_indef => Oracle::Fail("D24-carrying-on-after-a-failed-read-inside-an-indefinite-length-value-misparses-the-rest-of-the-failed-member".into()),
+            Some(Ok((true, _, _))) => Oracle::Fail("enclosing-read-succeeds-after-a-swallowed-failure-and-what-follows-is-not-what-follows-in-the-input".into()),
+        };
+        (Ints::new().n(1), orc, true)
+    });
+}
+
 pub fn run(em: &mut Emitter, rng: &mut Rng, thorough: bool) {
+    for _ in 0..(if thorough { 60_000 } else { 2_500 }) {
+        let mode = rng.below(3) as u8;
+        let members = { let f = random_forest(rng, mode, 4); if f.is_empty() { continue } f };
+        let outer_indef = match mode { 1 => true, 2 => false, _ => rng.bool() };
+        let wrap2 = match mode { 1 => *rng.pick(&[0u8, 2]), 2 => rng.below(2) as u8, _ => rng.below(3) as u8 };
+        let j = rng.below(members.len() as u64) as usize;
+        for how in 0..6u8 { lenient_case(em, mode, outer_indef, wrap2, &members, j, how, rng.below(3) as usize); }
+    }
     let ctxs = [Ctx::Top, Ctx::Definite, Ctx::Indefinite];
     // exhaustive short scripts over a small alphabet on a 3-octet value followed by a sibling
     let sib = vec![Node::Prim { cls: 0, num: 2, content: vec![0x77] }];
